@@ -16,12 +16,10 @@ LEVEL_TEXT = ('Lean 4 theorems about an executable list model of Spectrum whose 
               'one value per wavelength) is preserved by crop/trim/pad/append/resample and by every history, also when an operation is refused; '
               'crop keeps exactly the closed range and is covariant under a change of unit (crop_scale_covariant); trim keeps first-to-last '
               'sample above tolerance; retained samples are unaltered; `integrate s a b` is linear in the values and additive at a sample '
-              '(integrate_linear, integrate_additive_at_sample), the trapezoid sum is exact on globally linear data; trapezoid binning returns one '
-              'bin per centre and, with power preservation, sums to integrate over the centres\' span.')
-LEVEL_NOTE = ('partial: non-negativity of bins is proved for the chained rule on non-negative samples over increasing edges only '
-              '(bin_trapz_nonneg_partial: that the interpolant of a non-negative spectrum is non-negative and that edges of increasing centres '
-              'increase is oracle-only); exactness of trapezoid bins for spectra linear across each bin, exactness for piecewise-linear data, the '
-              'Simpson bin count and every Simpson/scipy.integrate.simpson clause are oracle-only. Open known finding KF-C15-bin-integer-centres. '
+              '(integrate_linear, integrate_additive_at_sample), the trapezoid sum is exact on globally linear data; both rules return one bin per centre (bin_length); trapezoid bins of a non-negative spectrum are non-negative (bin_trapz_nonneg, about `bin` itself) '
+              'and, with power preservation, sum to integrate over the centres\' span; refusals leave the spectrum (append/resample/trim/pad) or an emptied grid (crop).')
+LEVEL_NOTE = ('partial: exactness of trapezoid bins for spectra linear across each bin, exactness for piecewise-linear data, '
+              'non-negativity/exactness of Simpson bins and every scipy.integrate.simpson clause are oracle-only. Open known finding KF-C15-bin-integer-centres. '
               'Trusted: scipy interp1d(kind=linear) = piecewise-linear interpolant with fill; np.linspace, np.delete, np.trapz as modelled.')
 TECHNIQUE = 'Lean 4 proof (induction over lists and over operation histories) about a hand model + per-step differential correspondence at ℚ'
 GEN = ['SpectrumOps']
@@ -35,8 +33,7 @@ RULE = ('streams: histories, integrate, setvalue (sample/bin, assign `value`/`wa
 TRUSTED = ['scipy.interpolate.interp1d(kind="linear", bounds_error=False, fill_value=…) is the piecewise-linear interpolant with fill',
            'np.linspace(a,b,n)[i] = a + i(b-a)/(n-1); np.delete/np.where/np.append/np.hstack semantics; np.trapz',
            'scipy.integrate.simpson (used by integrate(method="simps") and by preserve_power with simps) is taken from the implementation']
-UNPROVEN = ['non-negativity of `bin` itself (interpolant of a non-negative spectrum, monotone edges) — only the chained rule on free lists is proved',
-            'Simpson bin count (one bin per centre) — proved for the trapezoid rule only',
+UNPROVEN = ['non-negativity of Simpson bins (trapezoid: bin_trapz_nonneg, about `bin` itself, with and without power preservation)',
             'exactness of integration for piecewise-linear (not globally linear) data',
             'Simpson binning with integer-dtype centres (open known finding KF-C15-bin-integer-centres: mid-points truncated)',
             'Simpson bins: positivity of the weights and exactness for linear spectra on uniform centres (oracle only)',
